@@ -80,13 +80,13 @@ def _analyses():
             "zeros of the argument's / output's space on independent paths (A13.zero), one Box and one VSpace per differentiable type (A1.types), container layout (A2.layout).",
         ),
         "C06": (
-            [kt.trace_fn, kt.wrapper, kt.notrace_wrapper, ka.arraybox_table, ka.operators, ka.wrapper_signatures, kc.inplace_sites],
+            [kt.trace_fn, kt.wrapper, kt.notrace_wrapper, kt.find_top, kt.new_trace, ka.arraybox_table, ka.operators, ka.wrapper_signatures, kc.inplace_sites],
             "Value transparency: trace() returns the unboxed value; the wrapper calls the raw function unchanged on plain inputs and unboxes exactly one level; ArrayBox's "
             "operator/method/property table follows the Python data model (A14); operators return primal/aux untouched (A15); re-implemented wrappers keep NumPy's optional "
             "parameter names, positions and defaults (A6.wrapsig); no in-place write to a parameter (A9.inplace).",
         ),
         "C07": (
-            [a8_taint.traceable, a1.helpers, kc.closure_reuse],
+            [a8_taint.traceable, a1.helpers, kc.closure_reuse, kt.trace_fn, kt.wrapper, kt.find_top, kt.new_trace],
             "Closure under differentiation: no raw numpy call on a possibly traced operand inside a non-primitive rule body (A8), every helper primitive used at backward time "
             "has its own VJP and VSpace arithmetic has both rules (A1.helpers), backward closures are re-usable (A10).",
         ),
